@@ -4,9 +4,12 @@ sys.path.insert(0, ROOT)
 def main():
     ap = argparse.ArgumentParser()
     ap.add_argument("prop"); ap.add_argument("--tier", default=os.environ.get("VERIF_TIER", "quick"))
-    ap.add_argument("--only", action="append"); ap.add_argument("--replay"); ap.add_argument("--jobs", type=int)
+    ap.add_argument("--only", action="append"); ap.add_argument("--replay"); ap.add_argument("--jobs", type=int); ap.add_argument("--module")
     a = ap.parse_args()
     os.environ["VERIF_TIER"] = a.tier
+    if a.module:
+        os.environ["VERIF_MODULE"] = a.module
+        os.environ.setdefault("VERIF_EVIDENCE_DIR", f"/tmp/verif_dev_evidence/{a.module}")
     from vf import elab, core
     from vf.props import META
     if a.replay:
